@@ -24,6 +24,7 @@ import (
 	"encoding/json"
 	"fmt"
 	"math"
+	"regexp"
 	"sort"
 	"strconv"
 	"strings"
@@ -192,6 +193,8 @@ type c11View struct {
 	evPrio    int32
 	labelPrio int64
 	enabled   bool
+	evAnnOutOfRange, evAnnUnparsable bool
+	evRaw                            string
 	hasPolicy bool
 	policyOK  bool // annotation is a well-formed JSON list of strings
 	policies  map[string]bool
@@ -202,7 +205,7 @@ type c11View struct {
 }
 
 func (v *c11View) String() string {
-	return fmt.Sprintf("%s{be=%v prio=%d ev=%d lp=%d enabled=%v policy=%v/%v%v metric=%v used=%d req=%v phase=%s}", v.name, v.be, v.prio, v.evPrio, v.labelPrio,
+	return fmt.Sprintf("%s{be=%v prio=%d ev=%d(%q) lp=%d enabled=%v policy=%v/%v%v metric=%v used=%d req=%v phase=%s}", v.name, v.be, v.prio, v.evPrio, v.evRaw, v.labelPrio,
 		v.enabled, v.hasPolicy, v.policyOK, c11Keys(v.policies), v.hasMetric, v.used, v.req, v.phase)
 }
 
@@ -223,8 +226,20 @@ func c11ViewOf(pod *corev1.Pod, table c11Table) *c11View {
 	}
 	v.prioZero = v.prio == 0
 	if s, ok := pod.Annotations[apiext.AnnotationPodEvictionPriority]; ok {
-		if n, err := strconv.ParseInt(s, 10, 32); err == nil {
-			v.evPrio = int32(n)
+		// Documented (apis/extension: "int32 string, negative allowed"; GetPodEvictionPriority: "when the value
+		// is invalid, it returns 0 along with a non-nil error", the strategies then "use the default 0"):
+		// a decimal integer inside the int32 range is the key, everything else means the implicit 0.
+		v.evRaw = s
+		switch {
+		case !c11DecimalInt.MatchString(s):
+			v.evAnnUnparsable = true
+		default:
+			n, err := strconv.ParseInt(s, 10, 64)
+			if err != nil || n > c11MaxI32 || n < c11MinI32 {
+				v.evAnnOutOfRange = true
+			} else {
+				v.evPrio = int32(n)
+			}
 		}
 	}
 	v.labelPrio = int64(v.prio)
@@ -330,6 +345,7 @@ type c11Outcome struct {
 	byFeature                                   map[string]int
 	orderPairs, orderUndecided                  int
 	orderExtreme, orderOverflow                 int
+	orderInvalidAnn                             int
 	beEvPrioInversions                          int
 	met, unmet, stoppedEarly                    int
 	stoppedEarlyBy                              map[string]int
@@ -434,6 +450,9 @@ func c11Check(views map[types.UID]*c11View, tasks map[string]*c11TaskView, thr *
 				if ext {
 					out.orderExtreme++
 				}
+				if len(ka) == 3 && (p.evAnnOutOfRange || p.evAnnUnparsable || prev.evAnnOutOfRange || prev.evAnnUnparsable) {
+					out.orderInvalidAnn++
+				}
 				if ovf {
 					out.orderOverflow++
 				}
@@ -533,6 +552,12 @@ const (
 	c11MinI32 = -int64(1 << 31)
 )
 
+var c11DecimalInt = regexp.MustCompile(`^-?[0-9]+$`)
+
+// annotation values that are not an int32 string: just outside / far outside the range, not a decimal integer
+var c11AnnOutOfRange = []string{"2147483648", "-2147483649", "2147483648", "-2147483649", "1000000000000", "-1000000000000", "4294967296", "9223372036854775808"}
+var c11AnnUnparsable = []string{"high", "", " 5", "5.0", "0x10", "1e3", "5 "}
+
 func c11IsExtreme(x int64) bool { return x <= c11MinI32+1 || x >= 1000000000 }
 
 // c11OrderKeys: the integer keys of the feature's published comparator (before usage/request).
@@ -605,15 +630,24 @@ func c11GenPod(r *kit.Rand, i int, mode int, sharedPrio int32) (*corev1.Pod, *fl
 		labels[apiext.LabelPodEvictEnabled] = "false"
 	}
 	switch {
-	case mode == 1 && r.Pct(70):
-		ann[apiext.AnnotationPodEvictionPriority] = fmt.Sprint(kit.Pick(r, c11ExtremeI32))
+	case mode == 1 && r.Pct(75):
+		switch r.Weighted(60, 25, 15) {
+		case 0:
+			ann[apiext.AnnotationPodEvictionPriority] = fmt.Sprint(kit.Pick(r, c11ExtremeI32))
+		case 1:
+			ann[apiext.AnnotationPodEvictionPriority] = kit.Pick(r, c11AnnOutOfRange)
+		default:
+			ann[apiext.AnnotationPodEvictionPriority] = kit.Pick(r, c11AnnUnparsable)
+		}
 	case mode >= 2:
 		// equal (absent) for all pods of the case
 	case r.Pct(30):
 		ann[apiext.AnnotationPodEvictionPriority] = fmt.Sprint(kit.Pick(r, []int32{-100, -1, 1, 5, 100}))
 	}
 	if mode == 3 && r.Pct(70) {
-		labels[apiext.LabelPodPriority] = fmt.Sprint(kit.Pick(r, c11ExtremeI32))
+		// a label value cannot start with '-': only the non-negative extremes are legal; negative keys come
+		// from pods without the label (the key then defaults to spec.priority, shared and possibly negative)
+		labels[apiext.LabelPodPriority] = fmt.Sprint(kit.Pick(r, []int32{0, 1, 1<<31 - 2, 1<<31 - 1, 1<<31 - 1}))
 	} else if r.Pct(20) {
 		labels[apiext.LabelPodPriority] = fmt.Sprint(r.Intn(10000))
 	}
@@ -690,7 +724,7 @@ func c11GenCase(r *kit.Rand) *c11Case {
 	var sharedPrio int32
 	if r.Pct(15) {
 		cs.extreme = 1 + r.Intn(3)
-		sharedPrio = kit.Pick(r, []int32{5500, 5500, 100, -1 << 31, 1})
+		sharedPrio = kit.Pick(r, []int32{5500, 100, -1 << 31, -1 << 31, -1, -1, 1})
 	}
 	n := r.Range(2, 12)
 	var sumUsedMilli int64
@@ -930,6 +964,12 @@ func TestVerifC11CPUEvict(t *testing.T) {
 				ex.pending[p.UID] = true
 			}
 			views[p.UID] = c11ViewOf(p, cs.table)
+			if views[p.UID].evAnnOutOfRange {
+				c.Count("annotation_out_of_range", 1)
+			}
+			if views[p.UID].evAnnUnparsable {
+				c.Count("annotation_unparsable", 1)
+			}
 		}
 		m := &cpuEvictor{evictInterval: time.Second, evictCoolingInterval: 20 * time.Second, metricCollectInterval: time.Second,
 			statesInformer: inf, metricCache: &c11Cache{}, evictExecutor: ex}
@@ -987,6 +1027,7 @@ func TestVerifC11CPUEvict(t *testing.T) {
 		c.Count("order_pairs_checked", out.orderPairs-out.orderUndecided)
 		c.Count("order_pairs_undecided", out.orderUndecided)
 		c.Count("order_pairs_with_extreme_keys", out.orderExtreme)
+		c.Count("order_pairs_with_invalid_eviction_priority_annotation", out.orderInvalidAnn)
 		c.Count("order_pairs_with_overflowing_key_difference", out.orderOverflow)
 		if out.orderOverflow > 0 {
 			c.Count("cases_with_overflowing_key_difference", 1)
